@@ -6,7 +6,7 @@ Pick(S) == RandomElement(S)
 MInit == Init /\ hist = <<>>
 MNext ==
   /\ Len(hist) < Depth
-  /\ \E w \in {Pick(1..14)}, d \in {Pick(Vouchers)}, a \in {IF Pick(1..3) = 1 THEN Pick(AmtClasses) ELSE Pick({"1", "2"})},
+  /\ \E w \in {Pick(1..19)}, d \in {Pick(Vouchers)}, a \in {IF Pick(1..3) = 1 THEN Pick(AmtClasses) ELSE Pick({"1", "2"})},
         r \in {IF Pick(1..4) = 1 THEN Pick(RecvClasses) ELSE "user"} :
        \/ w <= 5 /\ RecvEff(d, a, r) /\ last' = [act |-> "Recv", res |-> "ok", denom |-> d, amt |-> a, recv |-> r, committed |-> Committed(a, r)]
        \/ w \in {6, 7} /\ RegisterEff(d) /\ last' = [act |-> "Register", res |-> Res(RegisterOK(d)), denom |-> d]
@@ -15,6 +15,9 @@ MNext ==
        \/ w = 11 /\ \E bad \in {Pick(1..3) = 1} : RegisterExtEff(bad) /\ last' = [act |-> "RegisterExt", res |-> Res(RegisterExtOK), bad |-> bad]
        \/ w \in {12, 13} /\ (\A e \in Vouchers : ~ext[e]) /\ AddExtEff(d) /\ last' = [act |-> "AddExt", res |-> Res(AddExtOK(d)), denom |-> d]
        \/ w = 14 /\ \E n \in {Pick({1, 2})} : mx + n <= 3 /\ FundEff(n) /\ last' = [act |-> "Fund", res |-> "ok", n |-> n]
+       \/ w \in {15, 16} /\ d \in BackDenoms /\ SendBackEff(d, a) /\ last' = [act |-> "SendBack", res |-> Res(SendBackOK(d, a)), denom |-> d, amt |-> a]
+       \/ w \in {17, 18, 19} /\ \E e \in {IF \E x \in BackDenoms : out[x] > 0 THEN Pick({x \in BackDenoms : out[x] > 0}) ELSE d}, o \in {Pick(Outcomes)} :
+             e \in BackDenoms /\ SettleEff(e, o) /\ last' = [act |-> "Settle", res |-> Res(SettleOK(e)), denom |-> e, outcome |-> o]
   /\ hist' = Append(hist, last')
 MSpec == MInit /\ [][MNext]_<<vars, hist>>
 Emit == Len(hist) = Depth => PrintT(<<"MBT", ToJson(hist)>>)
